@@ -135,17 +135,18 @@ def make_user_parser_class():
     class HookParser(UserXmlParser):
         """Hooks are looked up per (event, qname) and memoised in hooks_cache."""
 
+        # events go to a per-caller list: the hooks are user code, not shared library state
         def start_name(self, attrs):
-            self.seen.append(("start", "name", len(attrs)))
+            CAP.seen.append(("start", "name", len(attrs)))
 
         def end_name(self, obj):
-            self.seen.append(("end", "name", canon(obj)))
+            CAP.seen.append(("end", "name", canon(obj)))
 
         def end_item(self, obj):
-            self.seen.append(("end", "item", type(obj).__name__))
+            CAP.seen.append(("end", "item", type(obj).__name__))
 
         def end_x(self, obj):
-            self.seen.append(("end", "x", canon(obj)))
+            CAP.seen.append(("end", "x", canon(obj)))
 
     return HookParser
 
@@ -163,9 +164,7 @@ def make_tool(key, context):
     if kind == "up":
         if _HOOK_CLS is None:
             _HOOK_CLS = make_user_parser_class()
-        p = _HOOK_CLS(config=parser_config("default"), context=context, handler=_handlers()[key[1]])
-        p.seen = []
-        return p
+        return _HOOK_CLS(config=parser_config("default"), context=context, handler=_handlers()[key[1]])
     if kind == "tp":
         return parsers.TreeParser(context=context, handler=_handlers()[key[1]])
     if kind == "xs":
@@ -304,9 +303,9 @@ def op_user_parse(docname, data, clazz_key, handler, needs, group):
 
     def fn(env, fault):
         p = env.tool(tool)
-        mark = len(p.seen)
+        CAP.seen = []
         obj = p.from_bytes(data, _resolve_clazz(clazz_key))
-        return (obj, list(p.seen[mark:]))
+        return (obj, list(CAP.seen))
 
     return Op(f"user_parse:{handler}:{docname}", "user_parse", fn, tool, needs, (), group, docname)
 
